@@ -28,6 +28,9 @@ static int vp_unlocks = 0;          /* number of releases so far */
 static void vp_on_unlock(void);              /* invariant check + interference, mutex about to be released */
 static void vp_on_wait(ldb_cond_t *cv);      /* same, plus the environment's progress while we sleep */
 static void vp_on_signal(ldb_cond_t *cv, int broadcast);
+#ifdef VP_WORLD_ON_LOCK
+static void vp_on_lock(void);                /* the environment acts while we block on the db mutex */
+#endif
 
 void ldb_mutex_init(ldb_mutex_t *m) { (void)m; }
 void ldb_mutex_destroy(ldb_mutex_t *m) { (void)m; }
@@ -36,6 +39,9 @@ void
 ldb_mutex_lock(ldb_mutex_t *m) {
   if ((void *)m == vp_db_mutex) {
     VP_ASSERT(!vp_mutex_held, "db mutex not locked twice (self-deadlock)");
+#ifdef VP_WORLD_ON_LOCK
+    vp_on_lock();
+#endif
     vp_mutex_held = 1;
   }
 }
